@@ -92,8 +92,10 @@ Definition client_of_str (sg : str) : option cid :=
     end
   else None.
 
-(* PersistentStorageImpl::delete_value (after the repair of F28): a registration that is withdrawn by deleting its
-   key leaves the registration table of its client too; other $SYS keys are not persisted *)
+(* PersistentStorageImpl::delete_value (after the repair of F28): a registration that a client withdraws by deleting its
+   key leaves the registration table of its owner too; other $SYS keys are not persisted, and the server's own clean-up
+   of $SYS/clients/<id>/# at a session end (client id 0) leaves the tables alone: they are cleared once the burial and
+   the last will are queued *)
 Definition reg_del (k : str) : list raction :=
   match split slash k with
   | [_; s1; cs; s3] =>
@@ -105,7 +107,8 @@ Definition reg_del (k : str) : list raction :=
       else []
   | _ => []
   end.
-Definition del_action (k : str) : list raction := if starts_with s_SYS_prefix k then reg_del k else [ADel k].
+Definition del_action (c : cid) (k : str) : list raction :=
+  if starts_with s_SYS_prefix k then (if N.eqb c 0 then [] else reg_del k) else [ADel k].
 
 Definition entry_eqb' (a b : option entry) : bool :=
   match a, b with
@@ -123,15 +126,26 @@ Definition removed_keys (before after : core) : list raction :=
 Definition written_keys (before after : core) : list raction :=
   flat_map (fun m => if entry_eqb' (lookup (data before) (fst m)) (Some (snd m)) then [] else [AUpd (key_of (fst m)) (snd m)]) (user_all after).
 
+(* registration keys of OTHER clients that a burial removed (a pattern whose first segment is a wildcard reaches them:
+   F4): each deletion goes through delete_value with the ending client's id, which clears the table entry of the client
+   named in the key (repair of F28).  The ending client's own keys are removed by the server (client id 0) before the
+   burial: no action. *)
+Definition not_own (c : cid) (a : raction) : bool :=
+  match a with AGG c' _ | ALW c' _ => negb (N.eqb c c') | _ => true end.
+Definition removed_regs (c : cid) (before after : core) : list raction :=
+  filter (not_own c)
+    (flat_map (fun m => match lookup (data after) (fst m) with None => reg_del (key_of (fst m)) | Some _ => [] end)
+              (collect (data before) [] (sys_clients_pat s_graveGoods) ++ collect (data before) [] (sys_clients_pat s_lastWill))).
+
 Definition actions_of (s : core) (o : op) : list raction :=
   let r := step s o in
   match o, o_res (snd r) with
   | OSet c k v _, RUnit => upd_action (Some c) k (Plain v)
   | OCSet c k v n _, RUnit => upd_action (Some c) k (Cas v n)          (* the version of the request, not the stored one: F13 *)
-  | ODelete _ k, RValue _ => del_action k
-  | OPDelete _ _, RKvs l => flat_map (fun kv => del_action (fst kv)) l
+  | ODelete c k, RValue _ => del_action c k
+  | OPDelete c _, RKvs l => flat_map (fun kv => del_action c (fst kv)) l
   | OImport _, RImported l => flat_map (fun x : str * entry * bool => if snd x then upd_action None (fst (fst x)) (snd (fst x)) else []) l
-  | ODisconnected c, RUnit => removed_keys s (fst r) ++ written_keys s (fst r) ++ [AGG c None; ALW c None]
+  | ODisconnected c, RUnit => removed_keys s (fst r) ++ removed_regs c s (fst r) ++ written_keys s (fst r) ++ [AGG c None; ALW c None]
   | _, _ => []
   end.
 
